@@ -25,7 +25,7 @@ def where_of(model, qualname):
     return "%s (%s)" % (info.loc(), qualname.replace("cutplace.", ""))
 
 
-def decide(ctx, rule, table, qualname, cell_fn, max_report=6, min_cells=1):
+def decide(ctx, rule, table, qualname, cell_fn, max_report=6, min_cells=1, key_name=None):
     """
     ``cell_fn(chooser)`` interprets one cell and returns ``(cell_key, actual, expected)`` or ``None``
     for a combination outside the table.  Every mismatch is one finding keyed by the cell.
@@ -58,9 +58,9 @@ def decide(ctx, rule, table, qualname, cell_fn, max_report=6, min_cells=1):
             ctx.res.fail(
                 rule,
                 what + " cell " + cell_key,
-                "%s:%s:%s:%s" % (qualname.replace("cutplace.", ""), rule, table, cell_key),
+                "%s:%s:%s:%s" % (qualname.replace("cutplace.", ""), rule, key_name or table, cell_key),
                 where_of(ctx.model, qualname),
-                "%s: cell %s gives %s but the property requires %s%s"
+                ("%s: cell %s: %s%.0s%s" if _render(expected) == "conforms" else "%s: cell %s gives %s but the property requires %s%s")
                 % (table, cell_key, _render(actual), _render(expected),
                    "" if len(mismatches) <= max_report or not first else " (+%d more cells)" % (len(mismatches) - max_report)),
                 {"choices": record, "actual": _render(actual), "expected": _render(expected)},
